@@ -23,6 +23,11 @@ Keep(A) == Go /\ A /\ h' = h
 GApply(r) == /\ Go /\ ApplyBatch(r)
              /\ h' = Append(h, [a |-> "msg", lo |-> inmsg[r][1], hi |-> inmsg[r][2], ok |-> (rstate'[r] = "ack"),
                                 n |-> Len(applied'[r]), e |-> expected'[r], len |-> Len(plog)])
+\* the callback fails at entry j of an accepted message: entries lo..j-1 are handed over (x of them), nothing counts
+GApplyFail(r) == /\ Go /\ ApplyFail(r)
+                 /\ \E j \in inmsg[r][1]..inmsg[r][2] :
+                      h' = Append(h, [a |-> "fail", lo |-> inmsg[r][1], hi |-> inmsg[r][2], ok |-> FALSE, x |-> j - inmsg[r][1],
+                                      n |-> Len(applied[r]), e |-> expected[r], len |-> Len(plog)])
 GAck(r) == /\ Go /\ Ack(r)
            /\ h' = Append(h, [a |-> "ack", lo |-> 0, hi |-> 0, ok |-> TRUE, n |-> Len(applied'[r]), e |-> reported'[r], len |-> Len(plog)])
 GRestart(r) == /\ Go /\ RRestart(r)
@@ -45,7 +50,7 @@ GNext == \/ GEmit
          \/ \E r \in Replicas :
               \/ Keep(PushSend(r)) \/ Keep(PollSend(r)) \/ Keep(InitialSend(r)) \/ Keep(Resend(r))
               \/ Keep(Lose(r)) \/ Keep(Dup(r)) \/ Keep(Reorder(r)) \/ GStray(r)
-              \/ Keep(Deliver(r)) \/ GApply(r) \/ GAck(r) \/ Keep(Nack(r)) \/ Keep(RNotice(r)) \/ GReconnect(r)
+              \/ Keep(Deliver(r)) \/ GApply(r) \/ GApplyFail(r) \/ GAck(r) \/ Keep(Nack(r)) \/ Keep(RNotice(r)) \/ GReconnect(r)
               \/ Keep(Disconnect(r)) \/ Keep(Overflow(r)) \/ GRestart(r)
 GSpec == GInit /\ [][GNext]_gvars
 =============================================================================
